@@ -104,11 +104,13 @@ type dsite struct {
 }
 
 type danalysis struct {
-	p     *Pkg
-	scope ast.Node // innermost function (FuncDecl / FuncLit) containing the call
-	body  *ast.BlockStmt
-	par   map[ast.Node]ast.Node
-	site  *dsite
+	p       *Pkg
+	scope   ast.Node // innermost function (FuncDecl / FuncLit) containing the call
+	body    *ast.BlockStmt
+	fnBody  *ast.BlockStmt // body of the enclosing declared function
+	fnScope ast.Node
+	par     map[ast.Node]ast.Node
+	site    *dsite
 }
 
 func (d *danalysis) obj(id *ast.Ident) types.Object {
@@ -414,6 +416,306 @@ func (d *danalysis) checkAssert(ta *ast.TypeAssertExpr, o types.Object, objs map
 	}
 }
 
+// freshExpr: e evaluates to an object allocated for this evaluation: a value.To*/value.New* call, a
+// call of a local function literal all of whose results are fresh, or a local variable all of whose
+// definitions are fresh.
+func (d *danalysis) freshExpr(e ast.Expr, depth int) bool {
+	if depth > 3 {
+		return false
+	}
+	switch x := e.(type) {
+	case *ast.ParenExpr:
+		return d.freshExpr(x.X, depth)
+	case *ast.CallExpr:
+		if isValueFunc(calleeFunc(d.p, x), freshNames...) {
+			return true
+		}
+		// a local closure: conv := func(...) value.Primary { ... return <fresh> }
+		if id, ok := x.Fun.(*ast.Ident); ok {
+			if v, ok := d.obj(id).(*types.Var); ok && d.fnBody.Pos() <= v.Pos() && v.Pos() < d.fnBody.End() {
+				var lits []*ast.FuncLit
+				n := 0
+				ast.Inspect(d.fnBody, func(m ast.Node) bool {
+					switch y := m.(type) {
+					case *ast.AssignStmt:
+						for i, l := range y.Lhs {
+							if lid, ok := l.(*ast.Ident); ok && d.obj(lid) == types.Object(v) {
+								n++
+								if len(y.Lhs) == len(y.Rhs) {
+									if fl, ok := y.Rhs[i].(*ast.FuncLit); ok {
+										lits = append(lits, fl)
+									}
+								}
+							}
+						}
+					case *ast.ValueSpec:
+						for i, nm := range y.Names {
+							if d.p.Info.Defs[nm] == types.Object(v) {
+								n++
+								if len(y.Values) == len(y.Names) {
+									if fl, ok := y.Values[i].(*ast.FuncLit); ok {
+										lits = append(lits, fl)
+									}
+								}
+							}
+						}
+					}
+					return true
+				})
+				if n != 1 || len(lits) != 1 {
+					return false
+				}
+				fl := lits[0]
+				if fl.Type.Results == nil || fl.Type.Results.NumFields() != 1 {
+					return false
+				}
+				ok := true
+				sub := &danalysis{p: d.p, scope: fl, body: fl.Body, fnBody: fl.Body, par: d.par, site: &dsite{}}
+				ast.Inspect(fl.Body, func(m ast.Node) bool {
+					if inner, isLit := m.(*ast.FuncLit); isLit && inner != fl {
+						return false
+					}
+					if r, isRet := m.(*ast.ReturnStmt); isRet {
+						if len(r.Results) != 1 || !sub.freshExpr(r.Results[0], depth+1) {
+							ok = false
+						}
+					}
+					return true
+				})
+				return ok
+			}
+		}
+		return false
+	case *ast.Ident:
+		v, ok := d.obj(x).(*types.Var)
+		if !ok || v.IsField() || !(d.body.Pos() <= v.Pos() && v.Pos() < d.body.End()) {
+			return false
+		}
+		fresh, n := d.defsFresh(v, nil, depth+1)
+		return fresh && n > 0
+	}
+	return false
+}
+
+// exclusiveBranches: a and b lie in different branches of one if / switch / select (so a definition at
+// a cannot reach a use at b), and no loop below the variable's declaration can carry a into b.
+func (d *danalysis) exclusiveBranches(a, b ast.Node, v *types.Var) bool {
+	anc := map[ast.Node]ast.Node{} // ancestor → child on the way to a
+	child := a
+	for n := d.par[a]; n != nil; child, n = n, d.par[n] {
+		anc[n] = child
+		if n == d.scope {
+			break
+		}
+	}
+	child = b
+	for n := d.par[b]; n != nil; child, n = n, d.par[n] {
+		if ca, ok := anc[n]; ok {
+			// n is the lowest common ancestor; ca / child are the subtrees holding a / b
+			excl := false
+			switch x := n.(type) {
+			case *ast.IfStmt:
+				excl = (ca == ast.Node(x.Body) && x.Else != nil && child == ast.Node(x.Else)) || (x.Else != nil && ca == ast.Node(x.Else) && child == ast.Node(x.Body))
+			case *ast.BlockStmt:
+				_, c1 := ca.(*ast.CaseClause)
+				_, c2 := child.(*ast.CaseClause)
+				_, m1 := ca.(*ast.CommClause)
+				_, m2 := child.(*ast.CommClause)
+				excl = ca != child && ((c1 && c2) || (m1 && m2))
+			}
+			if !excl {
+				return false
+			}
+			// a loop around the common ancestor, inside the variable's scope, could carry the definition over
+			for m := n; m != nil && m != d.scope; m = d.par[m] {
+				switch m.(type) {
+				case *ast.ForStmt, *ast.RangeStmt:
+					if v.Pos() < m.Pos() {
+						return false
+					}
+				}
+			}
+			return true
+		}
+		if n == d.scope {
+			break
+		}
+	}
+	return false
+}
+
+// defsFresh: are all definitions of v (that can reach `use`, when given) fresh?  Returns also their number.
+func (d *danalysis) defsFresh(v *types.Var, use ast.Node, depth int) (bool, int) {
+	fresh, n := true, 0
+	note := func(pos token.Pos, format string, a ...interface{}) {
+		fresh = false
+		if depth == 0 {
+			d.why("%s:%d "+format, append([]interface{}{d.p.base(pos), d.p.line(pos)}, a...)...)
+		}
+	}
+	ast.Inspect(d.body, func(m ast.Node) bool {
+		switch x := m.(type) {
+		case *ast.AssignStmt:
+			for i, l := range x.Lhs {
+				lid, ok := l.(*ast.Ident)
+				if !ok || d.obj(lid) != types.Object(v) {
+					continue
+				}
+				if use != nil && d.exclusiveBranches(x, use, v) {
+					continue
+				}
+				n++
+				if len(x.Lhs) != len(x.Rhs) {
+					note(x.Pos(), "defined by a multi-value expression")
+					continue
+				}
+				if (x.Tok != token.DEFINE && x.Tok != token.ASSIGN) || !d.freshExpr(x.Rhs[i], depth) {
+					note(x.Pos(), "defined as %s, not by a fresh-allocating value.To*/New* call", exprText(x.Rhs[i]))
+				}
+			}
+		case *ast.ValueSpec:
+			for i, nm := range x.Names {
+				if d.p.Info.Defs[nm] != types.Object(v) {
+					continue
+				}
+				n++
+				if len(x.Values) == 0 {
+					continue // zero value nil: Discard(nil) does nothing
+				}
+				if len(x.Values) != len(x.Names) {
+					note(x.Pos(), "declared with a multi-value expression")
+					continue
+				}
+				if !d.freshExpr(x.Values[i], depth) {
+					note(x.Pos(), "declared as %s", exprText(x.Values[i]))
+				}
+			}
+		case *ast.RangeStmt:
+			for _, l := range []ast.Expr{x.Key, x.Value} {
+				if lid, ok := l.(*ast.Ident); ok && d.obj(lid) == types.Object(v) {
+					n++
+					note(x.Pos(), "is a range variable")
+				}
+			}
+		}
+		return true
+	})
+	return fresh, n
+}
+
+// localSliceSite: value.Discard(a[i]) where a is a local slice made in this function whose elements are
+// only ever assigned fresh objects and only read back through value getters.
+func (d *danalysis) localSliceSite(ix *ast.IndexExpr, call *ast.CallExpr) bool {
+	id, ok := ix.X.(*ast.Ident)
+	if !ok {
+		return false
+	}
+	a, ok := d.obj(id).(*types.Var)
+	if !ok || a.IsField() || !(d.fnBody.Pos() <= a.Pos() && a.Pos() < d.fnBody.End()) {
+		return false
+	}
+	if _, isSlice := a.Type().Underlying().(*types.Slice); !isSlice {
+		return false
+	}
+	// one definition, by make
+	ndef, okAll := 0, true
+	outer := &danalysis{p: d.p, scope: d.fnScope, body: d.fnBody, fnBody: d.fnBody, fnScope: d.fnScope, par: d.par, site: d.site}
+	ast.Inspect(d.fnBody, func(m ast.Node) bool {
+		idn, ok := m.(*ast.Ident)
+		if !ok || d.obj(idn) != types.Object(a) {
+			return true
+		}
+		var n ast.Node = idn
+		par := d.par[n]
+		switch x := par.(type) {
+		case *ast.AssignStmt: // a := make(...)
+			for i, l := range x.Lhs {
+				if l == ast.Expr(idn) {
+					ndef++
+					c, isCall := x.Rhs[i].(*ast.CallExpr)
+					fid, _ := func() (*ast.Ident, bool) {
+						if isCall {
+							f, ok := c.Fun.(*ast.Ident)
+							return f, ok
+						}
+						return nil, false
+					}()
+					if len(x.Lhs) != len(x.Rhs) || !isCall || fid == nil || fid.Name != "make" {
+						okAll = false
+					}
+					return true
+				}
+			}
+			okAll = false // a used as a value on the right-hand side
+		case *ast.IndexExpr:
+			if x.X != ast.Expr(idn) {
+				okAll = false
+				return true
+			}
+			switch y := d.par[x].(type) {
+			case *ast.AssignStmt:
+				isLhs := false
+				for i, l := range y.Lhs {
+					if l == ast.Expr(x) {
+						isLhs = true
+						if len(y.Lhs) != len(y.Rhs) || !outer.freshExpr(y.Rhs[i], 1) {
+							okAll = false
+							d.why("%s:%d element assigned %s, which is not fresh", d.p.base(y.Pos()), d.p.line(y.Pos()), exprText(y.Rhs[i]))
+						}
+					}
+				}
+				if !isLhs {
+					okAll = false
+				}
+			case *ast.BinaryExpr:
+				other := y.X
+				if y.X == ast.Expr(x) {
+					other = y.Y
+				}
+				if oid, ok := other.(*ast.Ident); !ok || oid.Name != "nil" {
+					okAll = false
+				}
+			case *ast.TypeAssertExpr:
+				sel, ok := d.par[y].(*ast.SelectorExpr)
+				if !ok || !getterMethods[sel.Sel.Name] {
+					okAll = false
+				}
+			case *ast.CallExpr:
+				if !isValueFunc(calleeFunc(d.p, y), pureNames...) {
+					okAll = false
+				}
+			default:
+				okAll = false
+			}
+		case *ast.RangeStmt:
+			if x.X != ast.Expr(idn) || x.Value != nil {
+				okAll = false
+			}
+		case *ast.CallExpr:
+			if f, ok := x.Fun.(*ast.Ident); !ok || (f.Name != "len" && f.Name != "cap") {
+				okAll = false
+			}
+		default:
+			okAll = false
+		}
+		return true
+	})
+	if ndef != 1 || !okAll {
+		return false
+	}
+	// the Discard must run when the function returns: inside a function literal that is deferred
+	fl, ok := d.scope.(*ast.FuncLit)
+	if !ok {
+		return false
+	}
+	if c, ok := d.par[fl].(*ast.CallExpr); ok && c.Fun == ast.Expr(fl) {
+		if _, ok := d.par[c].(*ast.DeferStmt); ok {
+			return true
+		}
+	}
+	return false
+}
+
 func genDiscardFacts() {
 	var sites []*dsite
 	for _, pk := range []struct{ dir, path string }{{"query", queryPkg}, {"value", valuePkg}} {
@@ -451,7 +753,14 @@ func genDiscardFacts() {
 							break
 						}
 					}
-					d := &danalysis{p: p, scope: scope, body: body, par: par, site: s}
+					d := &danalysis{p: p, scope: scope, body: body, fnBody: fd.Body, fnScope: fd, par: par, site: s}
+					if ix, ok := c.Args[0].(*ast.IndexExpr); ok {
+						if !d.localSliceSite(ix, c) {
+							s.fresh = false
+							d.why("the argument is an element of a slice that is not provably local and filled with fresh objects only")
+						}
+						continue
+					}
 					id, ok := c.Args[0].(*ast.Ident)
 					if !ok {
 						s.fresh = false
@@ -464,75 +773,39 @@ func genDiscardFacts() {
 						d.why("the argument is a parameter, a captured or a package-level variable")
 						continue
 					}
-					// (a) every definition of the variable in the function is a fresh-allocating call
-					ndefs := 0
-					ast.Inspect(body, func(n ast.Node) bool {
-						switch x := n.(type) {
-						case *ast.AssignStmt:
-							for i, l := range x.Lhs {
-								lid, ok := l.(*ast.Ident)
-								if !ok || d.obj(lid) != types.Object(o) {
-									continue
-								}
-								ndefs++
-								if len(x.Lhs) != len(x.Rhs) {
-									s.fresh = false
-									d.why("%s:%d defined by a multi-value expression", p.base(x.Pos()), p.line(x.Pos()))
-									continue
-								}
-								rc, ok := x.Rhs[i].(*ast.CallExpr)
-								if !ok || !isValueFunc(calleeFunc(p, rc), freshNames...) || x.Tok != token.DEFINE && x.Tok != token.ASSIGN {
-									s.fresh = false
-									d.why("%s:%d defined as %s, not by a fresh-allocating value.To*/New* call", p.base(x.Pos()), p.line(x.Pos()), exprText(x.Rhs[i]))
-								}
-							}
-						case *ast.ValueSpec:
-							for i, nm := range x.Names {
-								if p.Info.Defs[nm] != types.Object(o) {
-									continue
-								}
-								ndefs++
-								if len(x.Values) == 0 {
-									continue // zero value nil: Discard(nil) does nothing
-								}
-								if len(x.Values) != len(x.Names) {
-									s.fresh = false
-									d.why("%s:%d declared with a multi-value expression", p.base(x.Pos()), p.line(x.Pos()))
-									continue
-								}
-								rc, ok := x.Values[i].(*ast.CallExpr)
-								if !ok || !isValueFunc(calleeFunc(p, rc), freshNames...) {
-									s.fresh = false
-									d.why("%s:%d declared as %s", p.base(x.Pos()), p.line(x.Pos()), exprText(x.Values[i]))
-								}
-							}
-						case *ast.RangeStmt:
-							for _, l := range []ast.Expr{x.Key, x.Value} {
-								if lid, ok := l.(*ast.Ident); ok && d.obj(lid) == types.Object(o) {
-									ndefs++
-									s.fresh = false
-									d.why("%s:%d is a range variable", p.base(x.Pos()), p.line(x.Pos()))
-								}
-							}
-						}
-						return true
-					})
+					stmt := par[ast.Node(c)]
+					// (a) every definition that can reach the Discard is a fresh-allocating call
+					fresh, ndefs := d.defsFresh(o, stmt, 0)
+					if !fresh {
+						s.fresh = false
+					}
 					if ndefs == 0 {
 						s.fresh = false
 						d.why("no definition found in the function")
 					}
-					// (c) escapes, (b) used after
+					// (c) escapes
 					objs := map[types.Object]bool{types.Object(o): true}
 					d.checkUses(o, objs)
-					var stmt ast.Node = par[ast.Node(c)]
-					if _, ok := stmt.(*ast.ExprStmt); !ok {
+					// (b) used after
+					switch st := stmt.(type) {
+					case *ast.ExprStmt:
+						if d.usedAfter(st, objs) {
+							s.used = true
+							d.why("mentioned again after the Discard at line %d", s.line)
+						}
+					case *ast.DeferStmt:
+						// runs when the function returns, after the results are evaluated: only a returned
+						// object can still be referenced
+						ast.Inspect(body, func(n ast.Node) bool {
+							if r, ok := n.(*ast.ReturnStmt); ok && r.Pos() > st.Pos() && d.mentions(r, objs) {
+								s.used = true
+								d.why("%s:%d returned although a deferred Discard recycles it", p.base(r.Pos()), p.line(r.Pos()))
+							}
+							return true
+						})
+					default:
 						s.used = true
-						d.why("the Discard call is not a statement of its own")
-						continue
-					}
-					if d.usedAfter(stmt, objs) {
-						s.used = true
-						d.why("mentioned again after the Discard at line %d", s.line)
+						d.why("the Discard call is neither a statement of its own nor deferred")
 					}
 					// closures that mention the variable may run later
 					ast.Inspect(body, func(n ast.Node) bool {
